@@ -779,6 +779,9 @@ class Rotation(torch.nn.Module):
         seq = seq.lower()
 
         angles = torch.as_tensor(angles)
+        if not angles.is_floating_point():
+            # integer dtypes do not work for trigonometric functions
+            angles = angles.float()
         if degrees:
             angles = torch.deg2rad(angles)
         if n_axes == 1 and angles.ndim == 0:
